@@ -248,8 +248,14 @@ impl Player {
     }
 
     fn do_ethcall(&mut self, step: &Value) -> Value {
-        let (obj, abs) = self.eth_call_obj(step);
-        let r = self.rpc("eth_call", json!([obj]));
+        let (obj, mut abs) = self.eth_call_obj(step);
+        let r = match step["block"].as_u64() {
+            Some(b) => {
+                abs["bn"] = json!(b);
+                self.rpc("eth_call", json!([obj, format!("{}", b)]))
+            }
+            None => self.rpc("eth_call", json!([obj])),
+        };
         let (ok, out) = match &r {
             Outcome::Ok(v) => (true, self.abs_output(v.as_str().unwrap_or("0x"))),
             Outcome::Err { data, .. } => (false, self.abs_output(data.as_ref().and_then(|d| d.as_str()).unwrap_or("0x"))),
@@ -359,7 +365,31 @@ impl Player {
         if Self::has_lc(step) {
             return ("call".into(), self.ledger_calldata(&step["lc"]));
         }
-        ("call".into(), asm::encode_ops(&step["ops"]))
+        let mut ops = step["ops"].clone();
+        self.resolve_callext(&mut ops);
+        ("call".into(), asm::encode_ops(&ops))
+    }
+
+    /// callext names its callee abstractly ("c_s1_0"): put the real address next to it
+    fn resolve_callext(&mut self, ops: &mut Value) {
+        if let Some(arr) = ops.as_array_mut() {
+            for o in arr.iter_mut() {
+                if o["op"] == "callext" {
+                    let name = o["to"].as_str().unwrap_or("dead").to_string();
+                    self.u_addr.insert(name.clone());
+                    if name.starts_with("c_") {
+                        self.u_cell_addr.insert(name.clone());
+                    }
+                    let a = self.addr_hex(&name);
+                    o["addr"] = json!(a);
+                }
+                if o.get("ops").is_some() {
+                    let mut inner = o["ops"].clone();
+                    self.resolve_callext(&mut inner);
+                    o["ops"] = inner;
+                }
+            }
+        }
     }
 
     fn ledger_calldata(&mut self, lc: &Value) -> Vec<u8> {
@@ -451,7 +481,7 @@ impl Player {
 
     fn collect_slots(ops: &[Value], out: &mut BTreeSet<u64>) {
         for o in ops {
-            if o["op"] == "sstore" || o["op"] == "ret" || o["op"] == "number" || o["op"] == "env" {
+            if o["op"] == "sstore" || o["op"] == "ret" || o["op"] == "number" || o["op"] == "env" || o["op"] == "bh" {
                 out.insert(o["s"].as_u64().unwrap_or(0));
             }
             if let Some(inner) = o["ops"].as_array() {
